@@ -11,6 +11,7 @@ def emitted_expectations(case, o):
       transformer / conditional : the tokens bearing the same tag on each of the step's input ports
       scatter                   : the scattered list token (element tag minus its last component / same tag for size)
       gather                    : the size token of the key + every element whose tag extends the key by one component
+      list-merge combinator     : the same-tag token of every source port
       dot / cartesian combinator: taken from the step's own _persist_token call (marked 'log')
     Returns (expected: {id: sorted ids}, problems: [str])."""
     by_port = {}
@@ -43,6 +44,9 @@ def emitted_expectations(case, o):
                     dp = next(p for n, p in s["ins"].items() if n != "__size__")
                     e = one(s["ins"]["__size__"], tag) + [i for t, i in by_port[dp]
                                                             if t.rsplit(".", 1)[0] == tag and i is not None]
+                elif k == "merge":
+                    # the merged list of tag T was computed from the token tagged T of EVERY source port
+                    e = [i for p in s["ins"].values() for i in one(p, tag)]
                 elif k == "exec":
                     jp = s["n"].strip("/") + "__job__"
                     e = [i for p in s["ins"].values() for i in one(p, tag)] + one(jp, tag)
